@@ -25,7 +25,12 @@ def families(tier, want_g3=True, fault_codes=False):
     T = templates.templates(tier)
     fams.append(("templates", T, None, None))
     import family_features
-    fams.append(("X(A;link;B;C) feature interactions", list(family_features.family(tier)), None, None))
+    import scen
+    X = list(family_features.family(tier))
+    fams.append(("X(A;link;B;C) feature interactions", X, None, None))
+    # seam S8: the dyndep / pool / validation shapes once more with Edge and Node objects at descending addresses
+    D = scen.descending_copies(T) + scen.descending_copies(X, tags_any=("link-dyndep",))
+    fams.append(("descending heap order (S8)", D, None, None))
     if tier == "quick":
         fams.append(("G(2;2;plain+restat+depfile+gcc)", list(family.family(2, 2, ["plain", "restat", "depfile", "gcc"], tier_depth=3)), None, None))
     else:
